@@ -109,6 +109,9 @@ static void janet_fiber_refresh_memory(JanetFiber *fiber) {
         memcpy(newData, fiber->data, fiber->capacity * sizeof(Janet));
         janet_free(fiber->data);
         fiber->data = newData;
+#ifdef JANET_VERIF
+        janet_verif_gc.relocations++;
+#endif
     }
 }
 #endif
